@@ -158,12 +158,12 @@ RESERVED = {"task_uuid", "task_level", "timestamp", "action_type", "action_statu
 MSG_STYLES = ["log_message", "action.log", "Message.log", "Message.new.write", "Message.bind.write", "MessageType.log", "MessageType.call.write"]
 ACT_STYLES = ["with", "ctx_finish", "run_finish", "log_call", "ActionType", "as_task", "start_task"]
 GEN_STYLES = ["gen_with", "gen_context"]  # action entered inside a plain generator that is then closed / thrown into
-TYPE_NAMES = ["app:a", "app:b", "app:c", "svc:request", "svc:db", "x"]
+TYPE_NAMES = ["app:a", "app:b", "app:c", "svc:request", "svc:db", "x", ""]  # "" is start_action's default type
 SERIALIZERS = ["ident", "str", "wrap", "neg"]
 
 # exception pool: names resolved in vf.excs
 EXC_EXCEPTION = ["ValueError", "KeyError", "RuntimeError", "UserError", "DeepUserError", "OSError", "FileNotFoundError",
-                 "ZeroDivisionError", "BadStr", "UnicodeErr", "StopIteration"]
+                 "ZeroDivisionError", "BadStr", "UnicodeErr", "StopIteration", "FalsyError", "EmptyErrors"]
 EXC_BASE = ["KeyboardInterrupt", "GeneratorExit", "SystemExit", "CancelledError", "UserBase", "BadStrBase"]
 
 
@@ -219,7 +219,8 @@ class ProgGen(object):
         if typed and not self.allow_typed:
             style, typed = "log_message", False
         f = self.fields(typed=typed)
-        node = {"k": "msg", "nid": self._nid(), "style": style, "type": rng.choice(self.type_names) + ":m", "fields": f}
+        t = rng.choice(self.type_names)
+        node = {"k": "msg", "nid": self._nid(), "style": style, "type": (t + ":m") if t else "", "fields": f}
         if typed:
             node["decl"] = self.typed_decl(f)
         return node
